@@ -26,13 +26,15 @@ from .. import core, molgen, wire
 from ..gen import gen_aromrules
 
 LEVEL = 'translation_validation'
-LEVEL_TEXT = ('The bond-assignment search of kekule() and the ring eligibility of thiele() are heuristics with many correct '
-              'answers (any Kekulé structure), so each actual output is certified run by run by Lean checkers '
+LEVEL_TEXT = ('The bond-assignment search of kekule() is a heuristic with many correct answers (any Kekulé structure) and '
+              'thiele() has a numbering-sensitive tautomer step, so each actual output is certified run by run by Lean checkers '
               '(`checkKekule`, `checkMatching`, `checkThiele`) whose soundness w.r.t. the declarative relations of '
               'Spec/Kekule.lean (same skeleton, aromatic bonds localised to 1/2, nothing else changed, hydrogens preserved and '
               'equal to what the C04 valence model computes, new double bonds a perfect matching of the acceptor atoms) is '
               'proved for all molecules. The deterministic pieces (atom classification, the whole of __prepare_rings, the '
-              'rule patch loop over the regenerated rule table) are exact functional models tied by output equality, with '
+              'rule patch loop over the regenerated rule table, the ring eligibility of thiele() and the whole of '
+              'thiele(fix_tautomers=False) for rings without rule-matched candidates) are exact functional models tied by '
+              'output equality, with '
               'universally quantified theorems (totality and reference agreement of the classification, charge conservation '
               'of every repair rule lifted over any match list). Stability / idempotence / numbering independence are '
               'validated on the real objects. Translation validation is the honest level: the decisive step is a proved '
@@ -42,15 +44,19 @@ LEVEL_NOTE = ('Lean kernel; hand-written models Model/C05Kekule.lean validated b
               'periodic table) as the meaning of "no valence error"; `sssr` (C06) and `get_mapping` (C07) outputs are taken '
               'as inputs; wire encoder; gen_aromrules translator; CachedMethods shim.')
 TECHNIQUE = 'Lean 4 proved checkers on the implementation\'s Kekulé / aromatic outputs + exact functional models of the classification, ring preparation and rule patching, differential line protocol'
-RULE = ('one case = one molecule in a concrete numbering / dict order (wire ints) together with the implementation\'s actual '
-        'output for one conversion (kekule, every enumerated Kekulé form (<= 48), thiele with and without tautomer fixing, '
-        'second applications, the same after a random renumbering); molecules: sampled corpus SMILES (as parsed: aromatic form), '
-        'test/arenes.sdf, test/heterocycles_charges.smi, handmade charged / quinoid / mis-drawn rings, generated Kekulé '
-        'structures (fused 5/6/7-ring skeletons, random maximal matching, unmatched atoms become pyrrole-like hetero atoms / '
-        'exocyclic C=O / carbanions, matched atoms C / pyridine N / pyridinium / pyrylium / thiopyrylium / P, random '
-        'substituents) and generated aromatic-form rings with random atom types; a case is non-trivial when the molecule '
-        'has at least one aromatic or aromatised ring; distinct by full request line. Plus the classification table: every '
-        '(Z in 12 elements, charge -2..2, radical, neighbours 2..5, H in None/0..3, exocyclic double bond) on ring templates.')
+RULE = ('one case = one request line: a molecule in a concrete numbering / dict order (wire ints) together with the '
+        'implementation\'s actual output for one conversion (kekule, every enumerated Kekulé form (<= 48), thiele with and without '
+        'tautomer fixing, second applications, the same after a random renumbering), or one row of a decision table. Molecules: '
+        'hand-made charged / quinoid / mis-drawn rings, test/arenes.sdf, test/heterocycles_charges.smi, other test/*.sdf, sampled '
+        'corpus SMILES (as parsed: aromatic form), every free polyhex benzenoid with <= 4 (quick) / 6 (thorough) hexagons and '
+        'random aza variants, every five-membered ring over {C,N,NH,O,S} and six-membered ring over {C,N,NH+,O+} (aromatic form, '
+        'one per rotation/reflection class), generated Kekulé structures (fused 5/6-ring skeletons, random maximal matching, '
+        'unmatched atoms become pyrrole-like hetero atoms / exocyclic C=X / carbanions, matched atoms C / pyridine N / pyridinium '
+        '/ pyrylium / thiopyrylium / P, random substituents), generated aromatic-form ring systems (tame palette with relational '
+        'checks, wild palette for the functional streams only); a molecule case is non-trivial when the molecule has at least one '
+        'aromatic or aromatised ring; distinct by full request line. Decision tables (every row non-trivial): classification of '
+        '__prepare_rings over (Z in 12 elements, charge -2..2, radical, neighbours 2..5, H in None/0..3, exocyclic double bond, '
+        'plain / ring-fusion template) = 6000 rows; thiele ring eligibility over 3024 monocyclic templates.')
 TRUSTED = ['harness/wire.py molecule encoder and the canonicalisers of harness/props/c05.py',
            'Spec/Kekule.lean relations as the meaning of the clauses; Spec/AromaticAtoms.lean reference table',
            'Model/Valence.lean (C04) as the meaning of "hydrogen count follows the valence rules"',
@@ -64,12 +70,12 @@ ASSUMPTIONS = ['molecule adjacency is symmetric (Graph invariant; the driver ans
                'molecules whose non-aromatic atoms already carry an undefined hydrogen count are outside the domain']
 HAS_DRIVER = True
 EXTRA_MODULES = ['Spec.Kekule', 'Model.C05Kekule', 'Model.C05Rules', 'Model.C05Thiele', 'Gen.AromaticRules']
-FINDINGS_MODULE = 'ChythonModel.Findings.C05'
 PROGRAMS = ['Thiele.thiele ring eligibility (monocyclic templates)', 'MoleculeContainer.kekule', 'MoleculeContainer.enumerate_kekule', 'MoleculeContainer.thiele',
             'MoleculeContainer.thiele(fix_tautomers=False)', 'Kekule.__prepare_rings', 'Kekule.__fix_rings',
             'MoleculeContainer.calc_implicit (through kekule)', 'aromatics._rules.rules']
 ENUM_CAP = 48
 KNOWN_TAUTOMER_SIG = 'C05/thiele-numbering-dependent/tautomer-fix-acceptor-choice'
+KNOWN_SSSR_SIG = 'C05/thiele-numbering-dependent/sssr-choice-in-cages'
 KNOWN_FALSE_SIG = 'C05/thiele-false-but-changed/tautomer-fix-without-aromatisation'
 
 _state = {}
@@ -245,7 +251,7 @@ MISDRAWN = ['O=n1ccccc1', 'CN=n1ccccc1', 'N=n1ccccc1', '[O-][s+]1cccc1', 'c1cc[s
             'Nc1ccc(cc1)S(=O)(=O)c1ccccc1', 'c1ccc2c(c1)C(=O)c1ccccc1C2=O', 'n1ccn2ccnc2c1', 'c1cn[nH]c1', 'c1nnn[nH]1',
             'c1ncon1', 'c1nc2ccccc2s1', 'c1ccc2nsnc2c1', 'c1cc2cc[nH]c2cn1', 'Cc1cc2ccccc2[nH]1', 'c1cc[n+]2ccccc2c1',
             'c1ccc2c(c1)cc[n+]1ccccc21', 'c1cc2ccc1CCc1ccc(CC2)cc1', '[nH+]1cc[nH+]cc1', 'C[n+]1cc[n+](C)cc1', '[nH+]1cccc2[nH+]cccc12',
-            '[nH2+]1cccc1', 'c1c[nH]c[nH+]1', 'O=[n+]1on(C)c(C)c1C', 'c1cs[s+]c1', 'c1cc[nH+]c2[nH]ccc12', 'c1cc2cc3ccc(cc4ccc(cc5ccc(cc1n2)[nH]5)n4)[nH]3']
+            '[nH2+]1cccc1', 'c1c[nH]c[nH+]1', 'C1=CC=CC=N1~[Cu]', 'Cl[Pt](Cl)(~N1=CC=CC=C1)~N1=CC=CC=C1', 'C1=CC=CN1~[Zn]', 'O=[n+]1on(C)c(C)c1C', 'c1cs[s+]c1', 'c1cc[nH+]c2[nH]ccc12', 'c1cc2cc3ccc(cc4ccc(cc5ccc(cc1n2)[nH]5)n4)[nH]3']
 
 
 def gen_kekule(rng):
@@ -898,7 +904,11 @@ def mol_cases(tag, mol, batch, rel, rng, renum=True, dist=None, known=None):
             tm = t.copy()
             tm.remap(mp)
             if not eq_snap(tm, tr):
-                if tautomer_choice_only(k, kr, mp) and known is not None:
+                if sssr_differs(k, kr, mp) and known is not None:
+                    # known finding: the ring list itself depends on numbering (cages: any minimum cycle basis omits faces)
+                    d('known:ring-list-depends-on-numbering')
+                    known(KNOWN_SSSR_SIG, f'{tag}: thiele(pi k) != pi thiele(k): {diff_snap(tm, tr)}', kints)
+                elif tautomer_choice_only(k, kr, mp) and known is not None:
                     # known finding: which acceptor nitrogen receives the hydrogen depends on the traversal order
                     d('known:tautomer-fix-acceptor-depends-on-numbering')
                     known(KNOWN_TAUTOMER_SIG, f'{tag}: thiele(pi k) != pi thiele(k): {diff_snap(tm, tr)}', kints)
@@ -917,6 +927,13 @@ def mol_cases(tag, mol, batch, rel, rng, renum=True, dist=None, known=None):
                     if st != 'ok' or not eq_snap(tr, t4):
                         rel('thiele-kekule-thiele', f'{tag}: renumbered: {st} {diff_snap(tr, t4)}', wire.mol_to_ints(tr))
     return nontrivial
+
+
+def sssr_differs(k, kr, mp):
+    """the ring list of the renumbered molecule is not the renumbered ring list (as sets of atom sets)"""
+    a = {frozenset(mp[x] for x in r) for r in k.sssr}
+    b = {frozenset(r) for r in kr.sssr}
+    return a != b
 
 
 def tautomer_fix_only(k, t):
@@ -1063,8 +1080,9 @@ def correspond(ctx):
         if n_rows <= 2:
             ctx.sample({'request': batch.lines[-2], 'implementation': exp})
     run_batch(ctx, batch)
-    ctx.exhaustive = True  # the classification table is enumerated completely in both tiers
-    ctx.notes.append(f'classification table: {n_rows} rows enumerated completely in {time.time() - t0:.1f}s')
+    # the property's domain (all aromatic molecules) is infinite, so `exhaustive` stays False; what IS enumerated completely
+    # in both tiers are the finite sub-domains named in the notes
+    ctx.notes.append(f'classification decision table: {n_rows} rows enumerated completely in {time.time() - t0:.1f}s')
 
     # ---- K: ring eligibility of thiele() on monocyclic templates (exhaustive over the template grid)
     batch = Batch()
@@ -1090,7 +1108,7 @@ def correspond(ctx):
         ctx.dist('tmono:' + ('aromatised' if n4 else 'left'))
         n_t += 1
     run_batch(ctx, batch)
-    ctx.notes.append(f'thiele ring-eligibility table: {n_t} monocyclic templates')
+    ctx.notes.append(f'thiele ring-eligibility table: {n_t} monocyclic templates (complete template grid)')
 
     # ---- molecules
     mols = []
@@ -1109,6 +1127,9 @@ def correspond(ctx):
             m = molgen.parse(s)
             if m is not None:
                 mols.append((f'heterocycles_charges.smi[{i}]', m))
+    ctx.notes.append(f'exhaustive sub-domains among the molecules: all free polyhex benzenoids with <= {4 if ctx.quick else 6} '
+                     'hexagons; all five-membered monocycles over {C,N,NH,O,S} and six-membered over {C,N,NH+,O+} up to '
+                     'rotation/reflection')
     for cells in polyhexes(4 if ctx.quick else 6):
         mols.append((f'benzenoid:{len(cells)}hex:{cells}', benzenoid(cells)))
         for j in range(1 if ctx.quick else 3):
@@ -1117,12 +1138,12 @@ def correspond(ctx):
         for name, m in hetero_monocycles(size):
             mols.append((f'heterocycle{size}:{name}', m))
     mols += molgen.corpus(rng, 220 if ctx.quick else 4200)
-    n_gen = 260 if ctx.quick else 4000
+    n_gen = 260 if ctx.quick else 2500
     for i in range(n_gen):
         m = gen_kekule(rng)
         if m is not None:
             mols.append((f'gen-kekule[{i}]', m))
-    for i in range(160 if ctx.quick else 2500):
+    for i in range(160 if ctx.quick else 1500):
         wild = i % 2 == 1
         try:
             m = gen_arom(rng, wild)
@@ -1131,7 +1152,7 @@ def correspond(ctx):
         mols.append((f'gen-arom-wild[{i}]' if wild else f'gen-arom[{i}]', m))
 
     batch = Batch()
-    budget = 110 if ctx.quick else 900
+    budget = 110 if ctx.quick else 800
     t0 = time.time()
     done = 0
     for tag, m in mols:
@@ -1262,7 +1283,9 @@ def property_failures(mol, rng=None, enum=True, perms=1):
         tm = t.copy()
         tm.remap(mp)
         if st != 'ok' or not eq_snap(tm, tr):
-            if st == 'ok' and tautomer_choice_only(k, kr, mp):
+            if st == 'ok' and sssr_differs(k, kr, mp):
+                add('thiele-numbering-dependent/sssr-choice-in-cages', f'{diff_snap(tm, tr)}')
+            elif st == 'ok' and tautomer_choice_only(k, kr, mp):
                 add('thiele-numbering-dependent/tautomer-fix-acceptor-choice', f'{diff_snap(tm, tr)}')
             else:
                 add('thiele-numbering-dependent', f'{st} {diff_snap(tm, tr)}')
@@ -1422,7 +1445,8 @@ def shrink(mol, clause):
 
 def probe(inp):
     m, _ = wire.ints_to_mol(list(inp['wire']), calc=True)
-    fl = property_failures(m, perms=int(inp.get('perms', 1)))
+    import random
+    fl = property_failures(m, random.Random(int(inp.get('seed', 0))), perms=int(inp.get('perms', 1)))
     want = inp.get('clause')
     hit = [f for f in fl if want is None or f[0] == want]
     if hit:
